@@ -18,4 +18,4 @@ ASSUMPTIONS = ["stdlib objects the code calls into (ElementTree, re, decimal, da
 
 
 def run(project, rep):
-    E.e_rules(project, rep, thorough=(rep.tier == "thorough"))
+    rep.run(E.e_rules, project, rep, thorough=(rep.tier == "thorough"))
